@@ -66,3 +66,39 @@ vp_fpos X__ZNSi5tellgEv(uint8_t* s) {
   r.f0 = (ST(s) & (FAILBIT | BADBIT)) ? (uint64_t)-1 : (uint64_t)vp_is_pos;
   return r;
 }
+
+/* ---- std::ostream model: unformatted write()/put()/flush()/seekp()/tellp() and character-sequence insertion (operator<< of a
+ * std::string or C string ends in std::__ostream_insert) append to / overwrite the in-memory file of rt_file.c.
+ * Object layout as libstdc++: { vptr } followed by the std::ios_base part at the virtual-base offset stored at vptr[-3] (8);
+ * the state word at ios_base + 32.  No badbit, no width/fill formatting (GIL never sets them). */
+#ifndef VP_FILE_MAX
+#define VP_FILE_MAX 256
+#endif
+static struct { int64_t* vptr; uint8_t ios_a[IOS_STATE_OFF]; uint32_t state; uint8_t ios_b[28]; } vp_os __attribute__((aligned(16)));
+static int64_t vp_os_vtbl[4];
+static int64_t vp_os_pos;
+uint8_t* X_vp_ostream(void) {
+  vp_os_vtbl[0] = 8; vp_os_vtbl[1] = 0; vp_os_vtbl[2] = 0;
+  vp_os.vptr = &vp_os_vtbl[3];
+  vp_os.state = 0; vp_os_pos = 0; vp_file_len = 0;
+  return (uint8_t*)&vp_os;
+}
+void X_vp_ostream_done(void) { }
+static void os_put(uint8_t* buf, uint64_t n) {
+  for (uint64_t i = 0; i < n; i++) {
+    VP_CHECK(vp_os_pos >= 0 && (uint64_t)vp_os_pos < VP_FILE_MAX, "env.file_capacity"); VP_ASSUME((uint64_t)vp_os_pos < VP_FILE_MAX);
+    vp_file[vp_os_pos++] = buf[i];
+    if ((uint64_t)vp_os_pos > vp_file_len) vp_file_len = (uint64_t)vp_os_pos; }
+}
+uint8_t* X__ZNSo5writeEPKcl(uint8_t* s, uint8_t* buf, uint64_t n) { if (vp_os.state == 0 && (int64_t)n > 0) os_put(buf, n); return s; }
+uint8_t* X__ZNSo3putEc(uint8_t* s, uint8_t c) { if (vp_os.state == 0) os_put(&c, 1); return s; }
+uint8_t* X__ZNSo5flushEv(uint8_t* s) { return s; }
+uint8_t* X__ZSt16__ostream_insertIcSt11char_traitsIcEERSt13basic_ostreamIT_T0_ES6_PKS3_l(uint8_t* s, uint8_t* buf, uint64_t n) {
+  if (vp_os.state == 0 && (int64_t)n > 0) os_put(buf, n); return s; }
+uint8_t* X__ZNSo5seekpElSt12_Ios_Seekdir(uint8_t* s, uint64_t off, uint32_t dir) {
+  if (vp_os.state & (FAILBIT | BADBIT)) return s;
+  int64_t np = dir == 0 ? (int64_t)off : dir == 1 ? vp_os_pos + (int64_t)off : (int64_t)vp_file_len + (int64_t)off;
+  if (np < 0 || (uint64_t)np > vp_file_len) { vp_os.state |= FAILBIT; return s; }
+  vp_os_pos = np; return s;
+}
+vp_fpos X__ZNSo5tellpEv(uint8_t* s) { vp_fpos r; r.f1 = 0; r.f0 = (vp_os.state & (FAILBIT | BADBIT)) ? (uint64_t)-1 : (uint64_t)vp_os_pos; return r; }
